@@ -3,6 +3,7 @@ package main
 // C10 — analysis is total: no panic, internal error or hang on any compilable package.
 
 import (
+	"encoding/json"
 	"fmt"
 	"os"
 	"os/exec"
@@ -169,6 +170,11 @@ func checkC10(replay string) {
 		}
 		os.RemoveAll(root)
 	}
+	// ---------------- (a2) the standard library of the second toolchain, annotated through a go/packages overlay
+	stdRounds := r.Pick(1, 8)
+	for round := 0; round < stdRounds; round++ {
+		c10StdOverlay(r, round, record)
+	}
 	// ---------------- (b) generated programs with exotic shapes, both drivers
 	nProg := r.Pick(60, 1500)
 	base.Par(nProg, 0, func(pi int) {
@@ -275,4 +281,146 @@ func checkC10(replay string) {
 		base.Harness("C10 produced no diagnostic at all: the injected annotations are not reaching the analyzers")
 	}
 	r.Finish()
+}
+
+const go126 = "/opt/veriftools/go1.26.8/bin"
+
+// c10StdOverlay: annotations are injected into copies of PRNG-chosen standard-library packages (go1.26.8 toolchain, whose
+// GOROOT lies outside the module cache so that overlays are accepted) and handed to go/packages as an Overlay; the real
+// analyzers run in-process (vcheck-std drive) over those packages and a set of large importers.
+func c10StdOverlay(r *base.Run, round int, record func([]ggrun.Diag)) {
+	stdBin := filepath.Join(base.BuildDir, "vcheck-std")
+	if _, err := os.Stat(stdBin); err != nil {
+		r.Inconclusive("std overlay: " + stdBin + " not built (./build.sh 1 builds it with go1.26.8)")
+		return
+	}
+	env := []string{}
+	for _, kv := range os.Environ() {
+		if strings.HasPrefix(kv, "PATH=") || strings.HasPrefix(kv, "GOROOT=") || strings.HasPrefix(kv, "GOGREEMENT_") {
+			continue
+		}
+		env = append(env, kv)
+	}
+	env = append(env, "PATH="+go126+":"+os.Getenv("PATH"), "GOTOOLCHAIN=local")
+	root := ggrun.Scratch()
+	defer os.RemoveAll(root)
+	ggrun.WriteTree(root, map[string]string{"go.mod": "module stdprobe\n\ngo 1.25\n", "x.go": "package stdprobe\n"})
+	list := exec.Command(go126+"/go", "list", "-f", "{{.ImportPath}} {{.Dir}}", "std")
+	list.Dir, list.Env = root, env
+	out, err := list.Output()
+	if err != nil {
+		r.Inconclusive(fmt.Sprintf("std overlay: go list std failed: %v", err))
+		return
+	}
+	type sp struct{ path, dir string }
+	var cands []sp
+	for _, l := range strings.Split(strings.TrimSpace(string(out)), "\n") {
+		f := strings.Fields(l)
+		if len(f) != 2 || strings.Contains(f[0], "internal") || strings.HasPrefix(f[0], "vendor/") || f[0] == "unsafe" || f[0] == "runtime" || strings.HasPrefix(f[0], "runtime/") || f[0] == "syscall" || f[0] == "reflect" {
+			continue
+		}
+		cands = append(cands, sp{f[0], f[1]})
+	}
+	rng := base.NewRand(r.Seed, fmt.Sprintf("c10-std-%d", round))
+	base.Shuffle(rng, cands)
+	n := 45
+	if n > len(cands) {
+		n = len(cands)
+	}
+	chosen := cands[:n]
+	copyRoot := filepath.Join(root, "stdcopy")
+	orig := map[string]string{} // copied file -> original path
+	for _, c := range chosen {
+		ents, _ := os.ReadDir(c.dir)
+		for _, e := range ents {
+			if e.IsDir() || !strings.HasSuffix(e.Name(), ".go") || strings.HasSuffix(e.Name(), "_test.go") {
+				continue
+			}
+			b, err := os.ReadFile(filepath.Join(c.dir, e.Name()))
+			if err != nil {
+				continue
+			}
+			dst := filepath.Join(copyRoot, c.path, e.Name())
+			os.MkdirAll(filepath.Dir(dst), 0o755)
+			os.WriteFile(dst, b, 0o644)
+			orig[dst] = filepath.Join(c.dir, e.Name())
+		}
+	}
+	rate := []int{25, 10, 40, 5}[round%4]
+	st, err := gen.InjectAnnotations(copyRoot, rng, rate)
+	if err != nil {
+		base.Harness("std overlay inject: %v", err)
+	}
+	overlay := map[string]string{}
+	for dst, src := range orig {
+		nb, _ := os.ReadFile(dst)
+		ob, _ := os.ReadFile(src)
+		if string(nb) != string(ob) {
+			overlay[src] = string(nb)
+		}
+	}
+	ob, _ := json.Marshal(overlay)
+	ovPath := filepath.Join(root, "overlay.json")
+	os.WriteFile(ovPath, ob, 0o644)
+	pats := []string{"net/http", "go/types", "encoding/json", "text/template", "html/template", "database/sql", "crypto/tls", "testing", "go/printer", "image/png"}
+	for _, c := range chosen {
+		pats = append(pats, c.path)
+	}
+	evOut := filepath.Join(root, "events.jsonl")
+	args := append([]string{"drive", "-dir", root, "-out", evOut, "-tests=false", "-overlay", ovPath}, pats...)
+	cmd := exec.Command(stdBin, args...)
+	cmd.Env = env
+	b, runErr := cmd.CombinedOutput()
+	r.Eval(1)
+	var sum driveSummary
+	for _, l := range strings.Split(string(b), "\n") {
+		if strings.HasPrefix(l, "DRIVE-SUMMARY ") {
+			json.Unmarshal([]byte(strings.TrimPrefix(l, "DRIVE-SUMMARY ")), &sum)
+		}
+	}
+	name := fmt.Sprintf("std overlay round %d (rate %d%%, %d annotations in %d files of %d packages)", round, rate, st.Annotations, len(overlay), len(chosen))
+	if len(sum.LoadErrors) > 0 {
+		base.Harness("%s: the overlay broke the build: %v", name, headList(sum.LoadErrors, 3))
+	}
+	if runErr != nil || sum.Actions == 0 || strings.Contains(string(b), "panic:") || strings.Contains(string(b), "fatal error:") {
+		r.Violate("crash/std-overlay/"+crashKey(string(b)), fmt.Sprintf("%s: in-process driver died: %v\n%s", name, runErr, head(string(b), 5000)), map[string]string{"overlay.json": string(ob)})
+		return
+	}
+	for _, ae := range sum.ActionErrors {
+		r.Violate("crash/std-overlay/action-error", fmt.Sprintf("%s: %s", name, ae), map[string]string{"overlay.json": string(ob)})
+		break
+	}
+	for _, mp := range sum.MonitorProblems {
+		r.Violate("monitor/std-overlay", fmt.Sprintf("%s: %s", name, mp), nil)
+		break
+	}
+	for _, fp := range sum.FactProblems {
+		r.Violate("facts/std-overlay", fmt.Sprintf("%s: %s", name, fp), nil)
+		break
+	}
+	// diagnostics by code
+	var ds []ggrun.Diag
+	if ev, err := os.ReadFile(evOut); err == nil {
+		for _, l := range strings.Split(string(ev), "\n") {
+			var e driveEvent
+			if l != "" && json.Unmarshal([]byte(l), &e) == nil && e.Ev == "rootdiag" {
+				d := ggrun.Diag{File: e.File, Line: e.Line, Msg: e.Msg}
+				if m := strings.Index(e.Msg, "["); m >= 0 {
+					if k := strings.Index(e.Msg[m:], "]"); k > 0 {
+						d.Code = e.Msg[m+1 : m+k]
+					}
+				}
+				ds = append(ds, d)
+			}
+		}
+	}
+	record(ds)
+	r.Distinct(fmt.Sprintf("std-overlay/%d", round))
+	r.Count("std_overlay_annotations", st.Annotations)
+	r.Count("std_overlay_packages_loaded", sum.Packages)
+	r.Count("std_overlay_actions", sum.Actions)
+	r.Count("std_overlay_diagnostics", len(ds))
+	if round == 0 {
+		r.Sample(map[string]any{"std_overlay_round": 0, "annotated_files": len(overlay), "annotations": st.Annotations, "actions": sum.Actions, "diagnostics": len(ds), "in_situ_contains_checked": sum.ContainsChecked})
+	}
 }
